@@ -52,7 +52,7 @@ res["first_reports"] = lines[:4]
 dst = os.path.join(VERIF, "seeded", sid)
 os.makedirs(dst, exist_ok=True)
 for f in os.listdir(sd):
-    if f in ("patch.diff", "demo.py", "demo.c", "run.sh") :
+    if f != "meta.json" and not f.startswith("out_") and os.path.isfile(os.path.join(sd, f)) and os.path.getsize(os.path.join(sd, f)) < 200000:
         shutil.copy2(os.path.join(sd, f), os.path.join(dst, f))
 meta = {}
 try:
